@@ -5,5 +5,6 @@ CONSTANTS
   Classes = {"field", "forge"}
   Entries = {"payload"}
   Dropped = {}
+  Lenient = {}
 INVARIANT NoObservation
 CHECK_DEADLOCK FALSE
